@@ -318,6 +318,8 @@ class _Context:
             self._local_params_names.extend(
                 [param.name.value for param in name.parent.get_params()]
             )
+            if name is name.parent.name:
+                self._used_name_dict.setdefault(name.value, []).append(name)
         else:
             self._used_name_dict.setdefault(name.value, []).append(name)
 
